@@ -543,4 +543,247 @@ end
 theorem codeFromTree_tables (cfg cfg' : Cfg) (t : GoNode) : (codeFromTree cfg t).2 = (codeFromTree cfg' t).2 := by
   simp only [codeFromTree]; exact emitNode_tables cfg cfg' t 2 2 _
 
+/-! ## the slot analysis `captureSlotsInUse` on the code of a tree -/
+
+/-- what one instruction contributes to `inUse` (the body of the loop of `captureSlotsInUse`) -/
+def markInstr (u : List Bool) (i : Instr) : List Bool :=
+  if i.opcode == opRef || i.opcode == opTestref then markSlot u i.args[0]?
+  else if i.opcode == opCapturemark then
+    (if i.args[1]? != some (-1) then markSlot (markSlot u i.args[0]?) i.args[1]? else u)
+  else u
+
+theorem sizeOf_ref_vals : Code.sizeOf? opRef = some 2 ∧ Code.sizeOf? opTestref = some 2 ∧ Code.sizeOf? opCapturemark = some 3 := by
+  decide
+
+/-- on the flat code of an instruction list with the arities of `opcodeSize`, the walk of `captureSlotsInUse` is a
+    fold over the instructions (fuel = any bound of their number) -/
+theorem slotsWalk_flatten : ∀ (c : Code) (fuel : Nat) (u : List Bool), (∀ i ∈ c, i.arityOk = true) → c.length ≤ fuel →
+    slotsWalk fuel (flatten c) u = c.foldl markInstr u
+  | [], fuel, u, _, _ => by cases fuel <;> simp [flatten, slotsWalk]
+  | i :: r, 0, _, _, hf => by simp at hf
+  | i :: r, fuel + 1, u, h, hf => by
+    have hi := h i (by simp)
+    have ih := fun u' => slotsWalk_flatten r fuel u' (fun j hj => h j (by simp [hj])) (by simpa using hf)
+    simp only [Instr.arityOk, beq_iff_eq] at hi
+    have hop : i.op % (flagMask + 1) = i.opcode := rfl
+    simp only [flatten, Instr.words, List.cons_append, slotsWalk, Int.toNat_natCast, List.foldl_cons, hop, hi,
+      Nat.add_sub_cancel_left, List.drop_left, ih]
+    congr 1
+    unfold markInstr
+    by_cases h1 : (i.opcode == opRef || i.opcode == opTestref) = true
+    · have hlen : i.args.length = 1 := by
+        simp only [Bool.or_eq_true, beq_iff_eq] at h1
+        rcases h1 with h1 | h1 <;> rw [h1] at hi
+        · rw [sizeOf_ref_vals.1] at hi; simp at hi; omega
+        · rw [sizeOf_ref_vals.2.1] at hi; simp at hi; omega
+      simp only [h1, if_true]
+      rw [List.getElem?_append_left (by omega)]
+    · simp only [h1, Bool.false_eq_true, if_false]
+      by_cases h2 : (i.opcode == opCapturemark) = true
+      · have hlen : i.args.length = 2 := by
+          simp only [beq_iff_eq] at h2
+          rw [h2, sizeOf_ref_vals.2.2] at hi; simp at hi; omega
+        simp only [h2, if_true]
+        rw [List.getElem?_append_left (by omega), List.getElem?_append_left (by omega)]
+      · simp only [h2, Bool.false_eq_true, if_false]
+
+theorem markSlot_length (u : List Bool) (c : Option Int) : (markSlot u c).length = u.length := by
+  unfold markSlot
+  cases c with
+  | none => rfl
+  | some x => simp only; split <;> simp
+
+theorem markSlot_mono (u : List Bool) (c : Option Int) (k : Nat) (h : u.getD k false = true) :
+    (markSlot u c).getD k false = true := by
+  unfold markSlot
+  cases c with
+  | none => exact h
+  | some x =>
+    simp only
+    split
+    · simp only [List.getD_eq_getElem?_getD, List.getElem?_set] at h ⊢
+      split
+      · split <;> simp_all
+      · exact h
+    · exact h
+
+theorem markSlot_marks (u : List Bool) (x : Int) (h0 : 0 ≤ x) (h1 : x < u.length) :
+    (markSlot u (some x)).getD x.toNat false = true := by
+  have hx : x.toNat < u.length := by omega
+  simp [markSlot, h0, h1, List.getD_eq_getElem?_getD, hx]
+
+theorem markInstr_length (u : List Bool) (i : Instr) : (markInstr u i).length = u.length := by
+  unfold markInstr
+  repeat' split
+  all_goals simp only [markSlot_length]
+
+theorem markInstr_mono (u : List Bool) (i : Instr) (k : Nat) (h : u.getD k false = true) :
+    (markInstr u i).getD k false = true := by
+  unfold markInstr
+  repeat' split
+  all_goals first
+    | exact h
+    | exact markSlot_mono _ _ _ h
+    | exact markSlot_mono _ _ _ (markSlot_mono _ _ _ h)
+
+theorem foldl_markInstr_length : ∀ (c : Code) (u : List Bool), (c.foldl markInstr u).length = u.length
+  | [], _ => rfl
+  | i :: r, u => by rw [List.foldl_cons, foldl_markInstr_length r, markInstr_length]
+
+theorem foldl_markInstr_mono : ∀ (c : Code) (u : List Bool) (k : Nat), u.getD k false = true →
+    (c.foldl markInstr u).getD k false = true
+  | [], _, _, h => h
+  | i :: r, u, k, h => by rw [List.foldl_cons]; exact foldl_markInstr_mono r _ k (markInstr_mono u i k h)
+
+/-- a `Ref` / `Testref` instruction with operand `x` -/
+def IsRefInstr (i : Instr) (x : Int) : Prop := (i.opcode = opRef ∨ i.opcode = opTestref) ∧ i.args = [x]
+
+theorem foldl_markInstr_marks : ∀ (c : Code) (u : List Bool) (i : Instr) (x : Int), i ∈ c → IsRefInstr i x → 0 ≤ x →
+    x < u.length → (c.foldl markInstr u).getD x.toNat false = true
+  | [], _, _, _, h, _, _, _ => by cases h
+  | j :: r, u, i, x, h, hi, h0, h1 => by
+    rw [List.foldl_cons]
+    rcases List.mem_cons.1 h with rfl | h
+    · apply foldl_markInstr_mono
+      have hop : (i.opcode == opRef || i.opcode == opTestref) = true := by
+        rcases hi.1 with e | e <;> simp [e]
+      simp only [markInstr, hop, if_true, hi.2, List.getElem?_cons_zero]
+      exact markSlot_marks u x h0 h1
+    · exact foldl_markInstr_marks r _ i x h hi h0 (by rw [markInstr_length]; exact h1)
+
+/-- `captureSlotsInUse` on the flat code of an instruction list -/
+theorem captureSlotsInUse_flatten (c : Code) (N : Nat) (h : ∀ i ∈ c, i.arityOk = true) :
+    captureSlotsInUse (flatten c) N = c.foldl markInstr ((List.replicate N false).set 0 true) := by
+  unfold captureSlotsInUse
+  exact slotsWalk_flatten c _ _ h (by rw [flatten_length]; exact length_le_codeLen c)
+
+mutual
+/-- the group numbers a tree reads back: operands of `Ref` and `BackRefCond` nodes -/
+def treeRefs : GoNode → List Int
+  | .ref _ _ m => [m]
+  | .concat cs => treeRefsList cs
+  | .alt cs => treeRefsList cs
+  | .loop _ _ _ c => treeRefs c
+  | .capture _ _ c => treeRefs c
+  | .group c => treeRefs c
+  | .poslook c => treeRefs c
+  | .neglook c => treeRefs c
+  | .atomic c => treeRefs c
+  | .backrefcond1 m y => m :: treeRefs y
+  | .backrefcond2 m y n => m :: (treeRefs y ++ treeRefs n)
+  | .exprcond2 c y => treeRefs c ++ treeRefs y
+  | .exprcond3 c y n => treeRefs c ++ (treeRefs y ++ treeRefs n)
+  | _ => []
+def treeRefsList : List GoNode → List Int
+  | [] => []
+  | c :: cs => treeRefs c ++ treeRefsList cs
+end
+
+theorem isRef_ref (rtl ci : Bool) (x : Int) : IsRefInstr (i1 (opRef ||| bits rtl ci) x) x :=
+  ⟨Or.inl (opcode_bits opRef (by decide) rtl ci), rfl⟩
+
+theorem isRef_testref (x : Int) : IsRefInstr (i1 opTestref x) x := ⟨Or.inr rfl, rfl⟩
+
+mutual
+/-- every group a tree reads back shows up as the operand of a `Ref` / `Testref` instruction of its code -/
+theorem emitNode_refs (cfg : Cfg) : ∀ (n : GoNode) (a : Nat) (tb : Tables) (m : Int), m ∈ treeRefs n →
+    ∃ i ∈ (emitNode cfg a tb n).1, IsRefInstr i (mapCapnum cfg m)
+  | .empty, _, _, _, h => by simp [treeRefs] at h
+  | .bare _, _, _, _, h => by simp [treeRefs] at h
+  | .char _ _ _ _, _, _, _, h => by simp [treeRefs] at h
+  | .set _ _ _, _, _, _, h => by simp [treeRefs] at h
+  | .multi _ _ _, _, _, _, h => by simp [treeRefs] at h
+  | .ref rtl ci g, a, tb, m, h => by
+    simp only [treeRefs, List.mem_singleton] at h
+    subst h
+    exact ⟨_, by simp [emitNode], isRef_ref rtl ci _⟩
+  | .charloop _ _ _ _ _ _, _, _, _, h => by simp [treeRefs] at h
+  | .setloop _ _ _ _ _ _, _, _, _, h => by simp [treeRefs] at h
+  | .concat cs, a, tb, m, h => by simp only [treeRefs] at h; simp only [emitNode]; exact emitList_refs cfg cs a tb m h
+  | .alt cs, a, tb, m, h => by simp only [treeRefs] at h; simp only [emitNode]; exact emitAlt_refs cfg cs a _ tb m h
+  | .loop _ _ _ c, a, tb, m, h => by
+    simp only [treeRefs] at h
+    obtain ⟨i, hi, hr⟩ := emitNode_refs cfg c (a + loopHeadLen _ _) tb m h
+    exact ⟨i, by simp only [emitNode, List.mem_append]; exact Or.inl (Or.inr hi), hr⟩
+  | .capture _ _ c, a, tb, m, h => by
+    simp only [treeRefs] at h
+    simp only [emitNode]
+    split
+    · obtain ⟨i, hi, hr⟩ := emitNode_refs cfg c (a + 1) tb m h
+      exact ⟨i, by simp only [List.mem_append]; exact Or.inl (Or.inr hi), hr⟩
+    · exact emitNode_refs cfg c a tb m h
+  | .group c, a, tb, m, h => by simp only [treeRefs] at h; simp only [emitNode]; exact emitNode_refs cfg c a tb m h
+  | .poslook c, a, tb, m, h => by
+    simp only [treeRefs] at h
+    obtain ⟨i, hi, hr⟩ := emitNode_refs cfg c (a + 2) tb m h
+    exact ⟨i, by simp only [emitNode, List.mem_append]; exact Or.inl (Or.inr hi), hr⟩
+  | .neglook c, a, tb, m, h => by
+    simp only [treeRefs] at h
+    obtain ⟨i, hi, hr⟩ := emitNode_refs cfg c (a + 3) tb m h
+    exact ⟨i, by simp only [emitNode, List.mem_append]; exact Or.inl (Or.inr hi), hr⟩
+  | .atomic c, a, tb, m, h => by
+    simp only [treeRefs] at h
+    obtain ⟨i, hi, hr⟩ := emitNode_refs cfg c (a + 1) tb m h
+    exact ⟨i, by simp only [emitNode, List.mem_append]; exact Or.inl (Or.inr hi), hr⟩
+  | .backrefcond1 g y, a, tb, m, h => by
+    simp only [treeRefs, List.mem_cons] at h
+    rcases h with rfl | h
+    · exact ⟨i1 opTestref (mapCapnum cfg m), by simp [emitNode], isRef_testref _⟩
+    · obtain ⟨i, hi, hr⟩ := emitNode_refs cfg y (a + 6) tb m h
+      exact ⟨i, by simp only [emitNode, List.mem_append]; exact Or.inl (Or.inr hi), hr⟩
+  | .backrefcond2 g y n, a, tb, m, h => by
+    simp only [treeRefs, List.mem_cons, List.mem_append] at h
+    rcases h with rfl | h | h
+    · exact ⟨i1 opTestref (mapCapnum cfg m), by simp [emitNode], isRef_testref _⟩
+    · obtain ⟨i, hi, hr⟩ := emitNode_refs cfg y (a + 6) tb m h
+      exact ⟨i, by simp only [emitNode, List.mem_append]; exact Or.inl (Or.inl (Or.inr hi)), hr⟩
+    · obtain ⟨i, hi, hr⟩ := emitNode_refs cfg n (a + 6 + size cfg y + 3) (emitNode cfg (a + 6) tb y).2 m h
+      exact ⟨i, by simp only [emitNode, List.mem_append]; exact Or.inr hi, hr⟩
+  | .exprcond2 c y, a, tb, m, h => by
+    simp only [treeRefs, List.mem_append] at h
+    rcases h with h | h
+    · obtain ⟨i, hi, hr⟩ := emitNode_refs cfg c (a + 4) tb m h
+      exact ⟨i, by simp only [emitNode, List.mem_append]; exact Or.inl (Or.inl (Or.inl (Or.inr hi))), hr⟩
+    · obtain ⟨i, hi, hr⟩ := emitNode_refs cfg y (a + 4 + size cfg c + 2) (emitNode cfg (a + 4) tb c).2 m h
+      exact ⟨i, by simp only [emitNode, List.mem_append]; exact Or.inl (Or.inr hi), hr⟩
+  | .exprcond3 c y n, a, tb, m, h => by
+    simp only [treeRefs, List.mem_append] at h
+    rcases h with h | h | h
+    · obtain ⟨i, hi, hr⟩ := emitNode_refs cfg c (a + 4) tb m h
+      exact ⟨i, by simp only [emitNode, List.mem_append]; exact Or.inl (Or.inl (Or.inl (Or.inl (Or.inr hi)))), hr⟩
+    · obtain ⟨i, hi, hr⟩ := emitNode_refs cfg y (a + 4 + size cfg c + 2) (emitNode cfg (a + 4) tb c).2 m h
+      exact ⟨i, by simp only [emitNode, List.mem_append]; exact Or.inl (Or.inl (Or.inr hi)), hr⟩
+    · obtain ⟨i, hi, hr⟩ := emitNode_refs cfg n (a + 4 + size cfg c + 2 + size cfg y + 4)
+        (emitNode cfg (a + 4 + size cfg c + 2) (emitNode cfg (a + 4) tb c).2 y).2 m h
+      exact ⟨i, by simp only [emitNode, List.mem_append]; exact Or.inr hi, hr⟩
+  | .other _, _, _, _, h => by simp [treeRefs] at h
+theorem emitList_refs (cfg : Cfg) : ∀ (cs : List GoNode) (a : Nat) (tb : Tables) (m : Int), m ∈ treeRefsList cs →
+    ∃ i ∈ (emitList cfg a tb cs).1, IsRefInstr i (mapCapnum cfg m)
+  | [], _, _, _, h => by simp [treeRefsList] at h
+  | c :: cs, a, tb, m, h => by
+    simp only [treeRefsList, List.mem_append] at h
+    rcases h with h | h
+    · obtain ⟨i, hi, hr⟩ := emitNode_refs cfg c a tb m h
+      exact ⟨i, by simp only [emitList, List.mem_append]; exact Or.inl hi, hr⟩
+    · obtain ⟨i, hi, hr⟩ := emitList_refs cfg cs (a + size cfg c) (emitNode cfg a tb c).2 m h
+      exact ⟨i, by simp only [emitList, List.mem_append]; exact Or.inr hi, hr⟩
+theorem emitAlt_refs (cfg : Cfg) : ∀ (cs : List GoNode) (a fin : Nat) (tb : Tables) (m : Int), m ∈ treeRefsList cs →
+    ∃ i ∈ (emitAlt cfg a fin tb cs).1, IsRefInstr i (mapCapnum cfg m)
+  | [], _, _, _, _, h => by simp [treeRefsList] at h
+  | c :: cs, a, fin, tb, m, h => by
+    simp only [treeRefsList, List.mem_append] at h
+    simp only [emitAlt]
+    split
+    · rename_i hemp
+      rcases h with h | h
+      · exact emitNode_refs cfg c a tb m h
+      · have : cs = [] := by simpa using hemp
+        subst this; simp [treeRefsList] at h
+    · rcases h with h | h
+      · obtain ⟨i, hi, hr⟩ := emitNode_refs cfg c (a + 2) tb m h
+        exact ⟨i, by simp only [List.mem_append]; exact Or.inl (Or.inl (Or.inr hi)), hr⟩
+      · obtain ⟨i, hi, hr⟩ := emitAlt_refs cfg cs (a + 2 + size cfg c + 2) fin (emitNode cfg (a + 2) tb c).2 m h
+        exact ⟨i, by simp only [List.mem_append]; exact Or.inr hi, hr⟩
+end
+
 end RegexVerif.Compile
